@@ -55,9 +55,9 @@ func TestVerifReplay(t *testing.T) {
 		},
 	}
 	cases := []struct {
-		desc string
-		sel  *fnv1.ResourceSelector
-		want []string
+		desc  string
+		sel   *fnv1.ResourceSelector
+		want  []string
 		nilOK bool
 	}{
 		{"by name a", &fnv1.ResourceSelector{ApiVersion: "example.org/v1", Kind: "Foo", Match: &fnv1.ResourceSelector_MatchName{MatchName: "a"}}, []string{"a"}, false},
